@@ -121,6 +121,9 @@ func (k *CommitmentKey[EK, P, N, C]) UnmarshalCBOR(data []byte) error {
 	if err != nil {
 		return errs.Wrap(err).WithMessage("failed to unmarshal commitment key")
 	}
+	if dto == nil {
+		return errs.Wrap(serde.ErrNull).WithMessage("failed to unmarshal commitment key")
+	}
 	kk, err := NewCommitmentKey(dto.EncryptionKey)
 	if err != nil {
 		return errs.Wrap(err).WithMessage("invalid commitment key in unmarshalled data")
